@@ -182,12 +182,6 @@ def generate(ctx: Ctx):
     return [("Ipv8/C07/GenTunnel.lean", src)]
 
 
-class Fail(Exception):
-    def __init__(self, sig, what):
-        super().__init__(what)
-        self.sig, self.what = sig, what
-
-
 class Real:
     """the real objects plus the harness's own bookkeeping of what was configured (for the oracle)"""
 
@@ -275,6 +269,7 @@ class Real:
                           f"{len(datas)} send_data calls, queue {len(before)}->{len(after)}, exception {exc}")
         else:
             self.nontrivial = True
+            self.accepted.add((addr, packet))
             for r in raws:
                 self._bad("TunnelEndpoint.send:raw-leak",
                           f"anonymized send handed {r[2].hex()} for {r[1]} to the wrapped endpoint's send() "
